@@ -3,6 +3,10 @@ NOTES = ("All checks are model-based: explicit TLA+ specifications in spec/ chec
          "implementation by replaying TLC behaviours into the real code and validating recorded executions "
          "against trace specifications (see DESIGN.md). Exit 2 = machinery failure.")
 ENGINES = [
+    {"name": "crash", "path": "harness/crashcheck.py", "serves_properties": ["C04"],
+     "kind_free_text": "StoreProto.tla model checked; crash images of the real stores judged by CrashTrace.tla; gate sequences validated by StoreProtoTrace.tla"},
+    {"name": "race", "path": "harness/racecheck.py", "serves_properties": ["C05"],
+     "kind_free_text": "StoreProto.tla (two writers) model checked against Lin.tla; real schedules (harness/sched.py) judged by LinTrace.tla"},
     {"name": "dav", "path": "harness/davcheck.py",
      "serves_properties": ["C01", "C02", "C03", "C06", "C07", "C08", "C09", "C14", "C15", "C17"],
      "kind_free_text": "TLC exhaustive check of spec/DavMC.tla; TLC-simulated behaviours replayed on the real server; "
@@ -14,12 +18,34 @@ TEXT = {
  "C01": "Property-level TLA+ model (Dav.tla) checked exhaustively by TLC in small scope; the same outcome operators judge, through TLC trace validation (DavTrace.tla), every step of model-generated and random request histories executed on the real server (two front ends, route prefixes, tree/bare git, vdir and memory stores), with a full state audit after each request.",
 }
 
+def other(pid, engine, category, text, technique, note):
+    return {
+        "property_id": pid,
+        "quick_cmd": "./check %s --tier quick" % pid,
+        "thorough_cmd": "./check %s --tier thorough" % pid,
+        "evidence_file": "evidence/%s.json" % pid,
+        "replay_cmd_template": "./check %s --replay {path}" % pid,
+        "engine": engine,
+        "level_claimed": {"category": category, "text": text, "design_ref": "DESIGN.md section 5 (%s), section 10" % pid},
+        "level_note": note,
+        "technique": technique,
+    }
+
+
 def table(dav):
     checks = []
     claimed = ["C01", "C02", "C03", "C06", "C07", "C08", "C09", "C14", "C15", "C17"]
     for pid in claimed:
         checks.append(dav(pid, TEXT.get(pid, TEXT["C01"]),
                           "TLA+ model checking (TLC) + trace validation of recorded executions against the spec"))
+    checks.append(other("C04", "crash", "fault_enumeration",
+        "Every mutating file-system event of create/replace/no-op/delete/property-set on tree-git, bare-git and vdir stores (with varying prior contents, both metadata back ends) is a crash point: the store directory as it is just before the event, plus torn variants of the file being written, is re-opened by the real code and read completely; TLC judges each image against CrashTrace.tla (old-or-new, opens, no reference to a missing object, acknowledged writes durable). The write protocols themselves are model checked exhaustively in StoreProto.tla, and the recorded gate sequences are validated against it.",
+        "TLA+ model checking of the write protocol (StoreProto) + exhaustive crash-point enumeration on the real code judged by a TLA+ trace spec",
+        "File-system operations persist in program order (no fsync reordering); torn writes sampled empty/half; audit-hook events are the crash points (kills between two Python-level events inside one C call are not distinguished); git CLI fsck as auditor; harness/compat.py."))
+    checks.append(other("C05", "race", "model_checking",
+        "TLC explores all interleavings of two writers in the implementation-shaped model StoreProto.tla (one action per file-system step) against the linearizability property Lin.tla; the real tree-git and bare-git stores are then run under systematically enumerated interleavings of their file-system steps (audit-hook scheduler: every preemption point, thorough: two preemptions; shared store object and separate store objects) and every execution is judged by TLC against Lin.tla. Races that the unchanged code has are listed in known_findings.json by store kind, operation kinds, clause and window.",
+        "TLA+ model checking (TLC) of the write protocol + deterministic schedule enumeration on the real code judged by a TLA+ linearizability spec",
+        "Preemption only at file-system events (audit hook); pure-Python sections between two events are not scheduled; exceptions raised under ref-lock contention count as a locked refusal if they had no effect; harness/compat.py."))
     na = [{"property_id": p, "reason": "check not built yet in this round; planned in DESIGN.md section 5"}
-          for p in ALL if p not in claimed]
+          for p in ALL if p not in claimed + ["C04", "C05"]]
     return checks, na
